@@ -32,6 +32,10 @@ func (e *Error) updateFromTokenIfNeeded(template *Template, t *Token) *Error {
 			e.Token = t
 			e.Line = t.Line
 			e.Column = t.Col
+			if e.Filename == "" {
+				// a position is only meaningful together with the file it refers to
+				e.Filename = t.Filename
+			}
 		}
 		// An error that already carries its own position (e. g. a lexer error
 		// inside an included template) keeps it; attaching the token of the
